@@ -1,11 +1,245 @@
-/- Driver for C14 (stub — not built yet) -/
+/-
+Driver for C14: builds the `Proc.Config` a script describes (same parsing rules as
+harness/src/c14.rs), runs the model (`Proc.run` — the definitions the theorems of Props/C14.lean
+are about), and compares the model's call log with the log of the real simulation, entry by
+entry.  Independently the implementation log is parsed by the bracket acceptor
+`Proc.rejectsAt` (Spec/ProcShape.lean): a log that is not a concatenation of well-formed brackets
+is a concrete counterexample (`kind=reject`), a well-formed log that differs from the model's
+breaks the tie (`kind=diverge`).
+-/
+import Desverif.Spec.ProcShape
 import Driver.Common
 namespace Driver.C14
-open Driver
+open Proc Driver
+
+structure EmitLine where
+  who : String
+  hook : String
+  key : Nat
+  emit : HEmit
+
+structure ElemDecl where
+  name : String
+  owner : Option String      -- none = global
+
+structure ModDecl where
+  name : String
+  stages : Nat
+  mode : StackMode
+
+structure Script where
+  mods : List ModDecl := []
+  elems : List ElemDecl := []
+  rules : List (String × Nat × Act) := []
+  emits : List EmitLine := []
+  inits : List (Nat × Nat × Nat) := []
+
+def modIdx (sc : Script) (name : String) : Option Nat :=
+  sc.mods.findIdx? (·.name == name)
+
+def parseScript (body : List String) : Script := Id.run do
+  let mut sc : Script := {}
+  -- pass 1a: modules
+  for line in body do
+    match words line with
+    | "mod" :: m :: rest =>
+      if (modIdx sc m).isNone then
+        let stages := (kvNat rest "stages").getD 1
+        let mode := match kv rest "mode" with
+          | some "prepend" => StackMode.prepend
+          | some "replace" => StackMode.replace
+          | _ => StackMode.append
+        sc := { sc with mods := sc.mods ++ [⟨m, stages, mode⟩] }
+    | _ => pure ()
+  -- pass 1b: elements
+  for line in body do
+    match words line with
+    | ["gel", e] =>
+      if !sc.elems.any (·.name == e) then sc := { sc with elems := sc.elems ++ [⟨e, none⟩] }
+    | ["el", e, m] =>
+      if !sc.elems.any (·.name == e) then
+        match m.splitOn "=" with
+        | ["mod", mn] => if (modIdx sc mn).isSome then sc := { sc with elems := sc.elems ++ [⟨e, some mn⟩] }
+        | _ => pure ()
+    | _ => pure ()
+  -- pass 2: behaviour
+  for line in body do
+    match words line with
+    | ["rule", e, id, act] =>
+      match id.toNat? with
+      | some id =>
+        let a : Option Act := if act == "pass" then some .pass else if act == "consume" then some .consume
+          else match act.splitOn ":" with
+            | ["mod", n] => n.toNat?.map Act.modify
+            | _ => none
+        match a with
+        | some a =>
+          if sc.elems.any (·.name == e) && !sc.rules.any (fun r => r.1 == e && r.2.1 == id) then
+            sc := { sc with rules := sc.rules ++ [(e, id, a)] }
+        | none => pure ()
+      | none => pure ()
+    | "emit" :: who :: hook :: key :: kind :: dst :: delay :: id :: rest =>
+      match key.toNat?, delay.toNat?, id.toNat? with
+      | some key, some delay, some id =>
+        let send := kind == "send"
+        if kind == "send" || kind == "sched" then
+          let d := modIdx sc dst
+          if !(send && d.isNone) then
+            let em : Emit := ⟨send, d.getD 0, delay, id⟩
+            -- a `sched` ignores its destination: encode it as a non-send
+            let em := if send then em else { em with dst := 0 }
+            let isH := who.startsWith "H:"
+            let he : HEmit := match (if isH then kvNat rest "task" else none) with
+              | some x => .task x em
+              | none => .now em
+            sc := { sc with emits := sc.emits ++ [⟨who, hook, key, he⟩] }
+      | _, _, _ => pure ()
+    | ["init", m, id, t] =>
+      match modIdx sc m, id.toNat?, t.toNat? with
+      | some mi, some id, some t => sc := { sc with inits := sc.inits ++ [(mi, id, t)] }
+      | _, _, _ => pure ()
+    | _ => pure ()
+  return sc
+
+def elemOf (sc : Script) (idx : Nat) (d : ElemDecl) : Elem :=
+  let rules := sc.rules.filter (·.1 == d.name)
+  let ems (hook : String) (key : Nat) : List Emit :=
+    (sc.emits.filter fun l => l.who == d.name && l.hook == hook && l.key == key).filterMap fun l =>
+      match l.emit with
+      | .now e => some e
+      | .task _ e => some e
+  { tag := idx
+    act := fun id => match rules.find? (·.2.1 == id) with
+      | some r => r.2.2
+      | none => .pass
+    onStart := ems "start"
+    onInc := ems "inc"
+    onEnd := ems "end" }
+
+def handlerOf (sc : Script) (m : ModDecl) : Handler :=
+  let ems (hook : String) (key : Nat) : List HEmit :=
+    (sc.emits.filter fun l => l.who == "H:" ++ m.name && l.hook == hook && l.key == key).map (·.emit)
+  { stages := m.stages, onMsg := ems "msg", onSimStart := ems "simstart", onSimEnd := ems "simend" 0 }
+
+/-- per module: the stack as element names (for reading the implementation log) and as model state -/
+def stacksOf (sc : Script) : List (List String × ModRt) :=
+  let indexed := sc.elems.zipIdx
+  let globals := indexed.filter (·.1.owner.isNone)
+  sc.mods.map fun m =>
+    let own := indexed.filter (·.1.owner == some m.name)
+    let mk (l : List (ElemDecl × Nat)) : List Elem := l.map fun p => elemOf sc p.2 p.1
+    let st := buildStack m.mode (mk globals) (mk own)
+    let names := st.map fun e => ((sc.elems[e.spec.tag]?).map (·.name)).getD "?"
+    (names, { elems := st, handler := handlerOf sc m, sleepers := [], nextWakeup := none })
+
+def hookOf : String → Option Hook
+  | "start" => some .start | "inc" => some .inc | "end" => some .end_ | "msg" => some .msg
+  | "simstart" => some .simStart | "simend" => some .simEnd | _ => none
+
+def hookName : Hook → String
+  | .start => "start" | .inc => "inc" | .end_ => "end" | .msg => "msg"
+  | .simStart => "simstart" | .simEnd => "simend"
+
+def parseObs (sc : Script) (stacks : List (List String × ModRt)) (line : String) : Option Entry :=
+  match words line with
+  | ["obs", m, who, hook, msg, t] =>
+    match modIdx sc m, hookOf hook, t.toNat? with
+    | some mi, some h, some t =>
+      let msg? : Option (Option Nat) := if msg == "-" then some none else msg.toNat?.map some
+      let who? : Option (Option Nat) :=
+        if who == "H" then some none
+        else match stacks[mi]? with
+          | some (names, _) => (names.findIdx? (· == who)).map some
+          | none => none
+      match msg?, who? with
+      | some msg, some who => some ⟨mi, who, h, msg, t⟩
+      | _, _ => none
+    | _, _, _ => none
+  | _ => none
+
+def showEntry (sc : Script) (stacks : List (List String × ModRt)) (e : Entry) : String :=
+  let m := ((sc.mods[e.mod]?).map (·.name)).getD s!"#{e.mod}"
+  let who := match e.who with
+    | none => "H"
+    | some i => ((stacks[e.mod]?).bind (·.1[i]?)).getD s!"#{i}"
+  let msg := match e.msg with | some x => toString x | none => "-"
+  s!"{m}/{who}/{hookName e.hook}/{msg}/{e.time}"
+
+def showOpt (sc : Script) (stacks : List (List String × ModRt)) : Option Entry → String
+  | some e => showEntry sc stacks e
+  | none => "<nothing>"
+
+def firstDiff (a b : List Entry) : Option Nat := Id.run do
+  let n := max a.length b.length
+  for i in [0:n] do
+    if a[i]? != b[i]? then return some i
+  return none
+
+def fuel : Nat := 20000
+
+def runCase (c : Case) : String := Id.run do
+  let id := ((words c.header)[1]?).getD "?"
+  let body := c.body.filter fun l => !(l.startsWith "obs ") && !(l.startsWith "res ") && !(l.startsWith "end")
+  let sc := parseScript body
+  let stacks := stacksOf sc
+  -- the implementation's answer
+  let mut impl : List Entry := []
+  let mut res := ""
+  let mut i := 0
+  for line in c.body do
+    if line.startsWith "obs " then
+      i := i + 1
+      match parseObs sc stacks line with
+      | some e => impl := e :: impl
+      | none => return s!"fail {id} op={i} kind=badline detail=[{line}]"
+    else if line.startsWith "res " then
+      res := line
+  impl := impl.reverse
+  if !(res.startsWith "res ok") then
+    -- no scripted behaviour panics: a failed run is a counterexample by itself
+    return s!"fail {id} op={impl.length} kind=reject clause=run-failed impl=[{res}]"
+  -- A: bracket grammar
+  let acts := stacks.map fun p => p.2.elems.map (·.spec.act)
+  match rejectsAt acts impl with
+  | some k =>
+    return s!"fail {id} op={k} kind=reject clause=bracket-shape at=[{showOpt sc stacks impl[k]?}] prev=[{showOpt sc stacks (if k = 0 then none else impl[k-1]?)}]"
+  | none => pure ()
+  -- T: the model
+  let s := run fuel { mods := stacks.map (·.2), inits := sc.inits }
+  match s.fault with
+  | some f => return s!"fail {id} op=0 kind=badcase detail=model-{f}"
+  | none => pure ()
+  match firstDiff s.log impl with
+  | some k =>
+    return s!"fail {id} op={k} kind=diverge model=[{showOpt sc stacks s.log[k]?}] impl=[{showOpt sc stacks impl[k]?}] prev=[{showOpt sc stacks (if k = 0 then none else impl[k-1]?)}]"
+  | none => pure ()
+  -- evidence
+  let brs := brackets acts impl
+  let msgBr := brs.filter fun b => match b.2.2 with | .message _ => true | _ => false
+  let isConsumed (b : Nat × Nat × Kind) : Bool :=
+    match acts[b.1]? with
+    | some a => (msgAt a b.2.2.msg? a.length).isNone
+    | none => false
+  let consumed := (msgBr.filter isConsumed).length
+  let handled := msgBr.length - consumed
+  let deepConsumed := (msgBr.filter fun b => match acts[b.1]? with
+    | some a => a.length ≥ 2 && isConsumed b && (msgAt a b.2.2.msg? 1).isSome
+    | none => false).length
+  let modified := (impl.filter fun e => e.hook == .msg &&
+    (match msgBr.find? (fun b => b.1 == e.mod && b.2.1 == e.time) with
+     | some _ => true | none => false)).length
+  let ties := ((brs.zip (brs.drop 1)).filter fun p => p.1.2.1 == p.2.2.1).length
+  let maxStack := acts.foldl (fun a l => max a l.length) 0
+  let emptyStacks := (acts.filter (·.isEmpty)).length
+  let wakeups := (s.evs.toList.filter fun e => match e with | .wakeup _ => true | _ => false).length
+  let exits := (s.evs.toList.filter fun e => match e with | .exitConn .. => true | _ => false).length
+  let _ := modified
+  let nt := deepConsumed > 0 && handled > 0 && maxStack ≥ 2 && ties > 0
+  return s!"ok {id} nt={if nt then 1 else 0} entries={impl.length} events={brs.length} msgs={msgBr.length} consumed={consumed} deepconsumed={deepConsumed} handled={handled} ties={ties} wakeups={wakeups} gatehops={exits} maxstack={maxStack} emptystacks={emptyStacks} mods={acts.length}"
 
 def main (stdin : IO.FS.Stream) : IO Unit := do
   let cases ← readCases stdin
   for c in cases do
-    IO.println s!"fail {(words c.header)[1]?.getD "?"} op=0 kind=unimplemented"
+    IO.println (runCase c)
 
 end Driver.C14
